@@ -392,7 +392,7 @@ class DictDecoder:
         self.verify_derived_names(qname, xsi_type)
 
         if var.elements:
-            choice = var.find_choice(qname)
+            choice = var.find_choice(qname) if qname else None
             if choice is None:
                 raise ParserError(
                     f"Unable to locate compound element"
